@@ -209,3 +209,20 @@ CHECKS["C05"] = {
     ],
     "mandatory_labels": {"all": ["crypto/kind=account", "crypto/kind=contact", "crypto/kind=multimember", "crypto/counter>=128", "crypto/messages-before-announcement"]},
 }
+
+CHECKS["C04"] = {
+    "level": "exploration",
+    "level_text": ("rapid-generated histories of account-group metadata operations by one or two devices on real OrbitDB stores, delivered to a read-only replica "
+                   "under every split into batches (short histories) or generated plans, with reopen at generated points and repeated re-indexing; oracles: "
+                   "replica-vs-writer differential per prefix, restart stability, idempotent re-index, and a reference fold in log order for single-writer histories"),
+    "level_note": "replicas share one mock IPFS node and entries move only through the harness (Sync of a chosen head); concurrent histories are checked for convergence only",
+    "technique": "model-based / differential property testing (rapid) over generated operation histories and delivery plans",
+    "rule": ("case = (operation history, delivery plan); non-trivial = the plan contains a batch of >=2 entries or the history has two writers; "
+             "distinct = (history, plan)"),
+    "assumptions": ["the state dump covers members, devices, admins, contacts (state, seed, metadata), by-status partition, contact-request switch and seed, joined groups, alias keys, credentials"],
+    "units": [
+        {"pkg": ".", "run": "^TestVerif_C04_", Q: {"timeout": 900}, T: {"timeout": 3400, "shards": 16}},
+    ],
+    "mandatory_labels": {"all": ["batch>=2", "reopen-at-end", "one-batch-replica", "two-writers", "consecutive-same-subject",
+                                 "multimember-group", "contact-group", "g/several-writers", "g/batch-vs-single", "g/reindex"]},
+}
